@@ -21,20 +21,22 @@
 EXTENDS Integers, Sequences, FiniteSets, TLC, Json, IOUtils, CSV
 
 CONSTANTS Kinds,        \* font kinds explored: subset of FontKinds below
-          Srcs,         \* table sources: subset of {"ops", "file"}
+          Srcs,         \* table sources: subset of {"ops", "file", "opsnr"} (opsnr: callbacks without release_table)
           Texts,        \* indices of the texts a history may shape
           ClientOps,    \* names of the client operations a history may contain
           MaxOps,       \* client operations per history (after MakeFace)
           NameMemo,     \* TRUE: the library remembers that it already looked for the name table (repair of F6)
           Emit
 
-FontKinds == {"good", "noname", "badlabel", "badglyph", "compressed", "awami", "badsilf", "nocmap", "nogloc", "badlz4", "badlz4s", "hiddenfeat"}
+FontKinds == {"good", "noname", "badlabel", "badglyph", "compressed", "awami", "badsilf", "nocmap", "nogloc", "badlz4", "badlz4s", "hiddenfeat", "name1"}
 PreloadGlyphs(o) == (o \div 2) % 2 = 1
 CacheCmap(o)     == (o \div 4) % 2 = 1
 PreloadAll(o)    == PreloadGlyphs(o) /\ CacheCmap(o)
 \* a font with one unloadable glyph is refused only when all glyphs are loaded up front
-Loads(k, o) == k \in {"good", "noname", "badlabel", "compressed", "awami", "hiddenfeat"} \/ (k = "badglyph" /\ ~PreloadGlyphs(o))
-OnDisk(k) == k \in {"good", "compressed", "awami"}
+Loads(k, o) == k \in {"good", "noname", "badlabel", "compressed", "awami", "hiddenfeat", "name1"} \/ (k = "badglyph" /\ ~PreloadGlyphs(o))
+\* "name1": the name table is of format 1, which the library does not read (TtfUtil::CheckTable): fetched, given back,
+\* and from then on as good as absent - on every kind of face (staged as a file by the harness)
+OnDisk(k) == k \in {"good", "compressed", "awami", "name1"}
 HasName(k) == k # "noname"
 
 \* tables the glyph loader keeps borrowed while it is alive (a compressed Glat is replaced by library memory)
@@ -63,7 +65,7 @@ MakeFace(o, k, sr) ==
           /\ held' = (IF PreloadGlyphs(o) THEN {} ELSE LoaderTabs(k)) \cup (IF CacheCmap(o) THEN {} ELSE {"cmap"})
           /\ nameDone' = (PreloadGlyphs(o) /\ (HasName(k) \/ NameMemo))
      ELSE /\ phase' = "dead" /\ held' = {} /\ nameDone' = FALSE           \* failed: everything released before returning
-  /\ hist' = <<Op("make_face", o + (IF sr = "file" THEN 8 ELSE 0))>>
+  /\ hist' = <<Op("make_face", o + (IF sr = "file" THEN 8 ELSE IF sr = "opsnr" THEN 16 ELSE 0))>>
   /\ UNCHANGED <<nfonts, nsegs, nfvals, afterMake>>
 
 \* gr_fref_label / gr_fref_value_label: Face::nameTable() fetches, copies and releases the name table on first use
